@@ -392,6 +392,12 @@ impl Issuer {
     /// println!("Encoded JWT: {}", encoded_jwt);
     /// ```
     pub fn encode(&mut self, signer_key: &KeyForEncoding) -> Result<String, Error> {
+        // the payload of a JWT is a JSON object: claims of any other type cannot be issued
+        if !self.claims.is_object() {
+            return Err(Error::SDJWTRejected(
+                "claims are not a JSON object".to_string(),
+            ));
+        }
         reject_reserved_names(&self.claims, true)?;
         // with key binding the issuer sets cnf itself: a cnf claim of the caller would be replaced
         // silently, or (when it is disclosable) end up in the SD-JWT next to the holder key
